@@ -15,6 +15,7 @@
 import Babylon.Exec.InvAll
 import Babylon.Exec.NoStuck
 import Babylon.Exec.SimpleLemmas
+import Babylon.Exec.SimpleOnce
 import Babylon.Gen.Exec
 
 namespace Babylon.Properties.C07
@@ -114,6 +115,19 @@ theorem gen_front_end :
        .rmw "fetch_sub" "_running" .acqrel, .call "detach"] ∧
     Gen.Exec.skel_newthread_join = [.load "_running" .acq, .call "usleep"] ∧
     Gen.Exec.stmts_is_running_in = ["returnthis==current();"] := by decide
+
+set_option maxRecDepth 100000 in
+/-- the source of the always-new-thread executor, as modelled by `Simple.stepNewThread`: `invoke`
+increments `_running`, creates ONE detached thread whose closure owns the function, enters a
+`RunnerScope`, calls the function once and decrements `_running`, and returns 0; `join()` polls
+`_running > 0`; the destructor is `join()` -/
+theorem gen_src_newthread :
+    Gen.Exec.stmts_newthread_invoke =
+      ["_running.fetch_add(1,::std::memory_order_acq_rel);",
+       "::std::thread([this,captured_function=::std::move(function)]{RunnerScopescope{*this};captured_function();_running.fetch_sub(1,::std::memory_order_acq_rel);}).detach();",
+       "return0;"] ∧
+    Gen.Exec.stmts_newthread_join = ["while(_running.load(::std::memory_order_acquire)>0){::usleep(1000);}"] ∧
+    Gen.Exec.stmts_newthread_dtor = ["join();"] := by decide
 
 /-! ## The thread pool -/
 
@@ -535,13 +549,76 @@ theorem exec_inplace (s : Simple.State) (hr : Simple.ReachI s) :
   ⟨fun t id _ h => Simple.inplace_accept_inside hr t id h,
    fun id => (Simple.inplace_exactly_once hr id).1, fun id => (Simple.inplace_exactly_once hr id).2⟩
 
-/-- **new-thread executor**: when `join()` has returned every task whose submission had succeeded
-before `join()` was called has finished; a rejected submission never ran.
-(`run exactly once` for this executor is checked by the oracle on the real code only: the theorem
-would need the uniqueness of the detached thread per task, not modelled.) -/
-theorem exec_newthread_partial (s : Simple.State) (hr : Simple.ReachN s) (id : Nat) :
-    (s.joinReturned = true → s.preJoin id = true → s.done id = true) ∧
-    (s.rejected id = true → s.runs id = 0 ∧ s.accepted id = false ∧ s.done id = false) :=
-  Simple.newthread_join_drains hr id
+/-- **exec_newthread** (always-new-thread executor, all task counts and interleavings of
+`Simple.stepNewThread`: any number of submitting threads, tasks submitting further tasks, `join()`
+at any time).
+1. No task function is entered more than once.
+2. An accepted task either has its own thread created and waiting to start (`id ∈ spawned`, not run
+   yet) or has been entered exactly once; a finished task was entered exactly once and its future is
+   ready (the closure handed to `invoke` fulfils the promise right after the function returns —
+   `gen_front_end` pins that closure, `futReady` is set with `done`).
+3. The thread a task ran on is the thread created for it by the `invoke` that accepted it, and that is
+   not the submitting thread.
+4. When `join()` — hence the destructor, which is `join()` (`gen_src_newthread`) — has returned, every
+   task accepted before `join()` was called has run exactly once, has finished and its future is ready.
+5. A rejected submission never ran, was never accepted and never finished. -/
+theorem exec_newthread (s : Simple.State) (hr : Simple.ReachN s) (id : Nat) :
+    s.runs id ≤ 1 ∧
+    (s.accepted id = true → (s.runs id = 0 ∧ id ∈ s.spawned) ∨ s.runs id = 1) ∧
+    (s.done id = true → s.runs id = 1 ∧ s.futReady id = true) ∧
+    (∀ u, s.ranOn id = some u → s.bornFor u = some id ∧ s.subBy id ≠ none ∧ s.subBy id ≠ some u) ∧
+    (s.joinReturned = true → s.preJoin id = true → s.done id = true ∧ s.runs id = 1 ∧ s.futReady id = true) ∧
+    (s.rejected id = true → s.runs id = 0 ∧ s.accepted id = false ∧ s.done id = false) := by
+  obtain ⟨N, X⟩ := Simple.InvX.reachable hr
+  refine ⟨X.x5 id, ?_, ?_, ?_, ?_, (Simple.newthread_join_drains hr id).2⟩
+  · intro h
+    rcases X.x6a id h with h1 | h1
+    · exact Or.inl ⟨X.x4 id h1, h1⟩
+    · exact Or.inr h1
+  · intro h; exact ⟨X.x7d id h, by rw [X.x8 id]; exact h⟩
+  · intro u h
+    have hb := X.b3 id u h
+    exact ⟨hb, (X.b1 u id hb).2.1, (X.b1 u id hb).2.2⟩
+  · intro h1 h2
+    have hd := N.n7r h1 id h2
+    exact ⟨hd, X.x7d id hd, by rw [X.x8 id]; exact hd⟩
+
+/-- a task spawning a child, both on their own threads, `join()` afterwards: the hypotheses of
+`exec_newthread` are satisfiable -/
+def demoRunN : List (Nat × Simple.Ev) :=
+  [(0, .submit 0), (0, .inc 0), (0, .spawn 1), (0, .accept 0), (1, .run 0 true),
+   (1, .submit 1), (1, .inc 1), (1, .spawn 2), (1, .accept 1), (1, .done 0), (1, .dec 2), (1, .exit),
+   (0, .joinBegin), (0, .ldCnt 1), (2, .run 1 true), (2, .done 1), (2, .dec 1), (0, .ldCnt 0), (0, .joinEnd)]
+
+def runN : Simple.State → List (Nat × Simple.Ev) → Option Simple.State
+  | s, [] => some s
+  | s, (t, e) :: rest =>
+    match Simple.stepNewThread s t e with
+    | some s' => runN s' rest
+    | none => none
+
+theorem reach_runN {s s' : Simple.State} (tr : List (Nat × Simple.Ev)) (hr : Simple.ReachN s)
+    (h : runN s tr = some s') : Simple.ReachN s' := by
+  induction tr generalizing s with
+  | nil => simp only [runN, Option.some.injEq] at h; subst h; exact hr
+  | cons x rest ih =>
+    obtain ⟨t, e⟩ := x
+    simp only [runN] at h
+    split at h
+    · rename_i s1 hs1
+      exact ih (Reachable.tail hr ⟨t, e, hs1⟩) h
+    · cases h
+
+example : ∃ s, Simple.ReachN s ∧ s.joinReturned = true ∧ s.preJoin 0 = true ∧ s.accepted 1 = true ∧
+    s.ranOn 0 = some 1 ∧ s.ranOn 1 = some 2 ∧ s.subBy 1 = some 1 := by
+  have h : (runN Simple.State.init demoRunN).map
+      (fun s => s.joinReturned && s.preJoin 0 && s.accepted 1 && decide (s.ranOn 0 = some 1) && decide (s.ranOn 1 = some 2) &&
+        decide (s.subBy 1 = some 1)) = some true := by decide
+  cases hs : runN Simple.State.init demoRunN with
+  | none => rw [hs] at h; cases h
+  | some s =>
+    rw [hs] at h
+    simp only [Option.map_some, Option.some.injEq, Bool.and_eq_true, decide_eq_true_eq] at h
+    exact ⟨s, reach_runN demoRunN (Reachable.base rfl) hs, h.1.1.1.1.1, h.1.1.1.1.2, h.1.1.1.2, h.1.1.2, h.1.2, h.2⟩
 
 end Babylon.Properties.C07
